@@ -160,6 +160,19 @@ Verdict prop(Tape& t, Run& run) {
 	}
 	const bool useDefault = t.coin();
 	NifFile nif;
+	// sometimes the object has a history: it loaded and saved another file (a sample with a size table)
+	// before; what that left behind in the object must not reach this file's output
+	if (c.hash % 4 == 1) {
+		auto& cp = corpus(run.args.corpus);
+		if (!cp.empty()) {
+			const auto& w = cp[(c.hash >> 8) % cp.size()];
+			if (loadBytes(nif, w.bytes) == 0) {
+				std::string tmp;
+				saveBytes(nif, tmp, defOpts());
+				run.cls("object-reused-after-saving-another-file");
+			}
+		}
+	}
 	if (loadBytes(nif, c.bytes) != 0) {
 		run.exclude("file not accepted by Load");
 		return OK;
